@@ -3,15 +3,18 @@ package main
 import (
 	"fmt"
 	"go/ast"
+	"go/parser"
 	"go/token"
 	"path/filepath"
+	"sort"
 	"strconv"
 	"strings"
 )
 
 // Gen/Policy.v: the DefaultRPCPolicy map literal (rpc_policy.go) as `policy : list (string * ept)` and the
-// decision function installed by newRPCServer (rpc_api.go, the `authF` literal) as `authf_gen`.
-// Anything the walk cannot follow is an error (the runner then reports the table as not regenerable).
+// decision function handed to rpc.WithAuthorizeFunc on every path to every rpc.NewServer call of newRPCServer
+// (rpc_api.go) as `authf_gen` (second half of this file). Anything the walk cannot follow is an error naming file:line
+// (the runner then reports the table as not regenerable).
 func init() { register("Policy", genPolicy) }
 
 var eptNames = map[string]string{"RPCClosed": "Closed", "RPCTrusted": "Trusted", "RPCOpen": "Open"}
@@ -129,173 +132,1104 @@ func mentions(e ast.Expr, name string) bool {
 	return r
 }
 
-// genAuthF follows exactly this shape of the literal assigned to `authF` in newRPCServer:
+// ---------------------------------------------------------------------------------------------------------------
+// authf_gen: which function decides, and what it decides.
 //
-//	func(pid peer.ID, svc, method string) bool {
-//		t, ok := c.config.RPCPolicy[svc+"."+method]
-//		if !ok { return <bool> }
-//		switch t { case RPCxxx[, ...]: return <r> ... default: return <r> }
-//	}
-//
-// where <r> is true, false or <something>.IsTrustedPeer(<ctx>, pid). It also requires that the literal is
-// what is handed to rpc.WithAuthorizeFunc at every rpc.NewServer call of newRPCServer.
+// 1. polFlow walks newRPCServer path by path (if / else fork the state; a return ends a path) and keeps, per path,
+//    what the local variables hold that matter: a function (literal, or copy of one), one rpc.WithAuthorizeFunc(f)
+//    option, or a slice of server options (`var opts []rpc.ServerOption`, a composite literal, `append(opts, ...)`).
+//    At every rpc.NewServer call, on every path reaching it, the options (written out, or `opts...`) must hold
+//    exactly one rpc.WithAuthorizeFunc(f). A call reachable with none (or two) is an error naming the call.
+// 2. f is resolved to a declaration: a function literal, a local variable holding one, a method value `c.m`
+//    (c a parameter of newRPCServer of a named type of this package) or a package-level function.
+// 3. polEval runs the body of f on the eight concrete inputs (entry missing / Closed / Trusted / Open) x (caller
+//    trusted or not): lookups in <...>.RPCPolicy with the key svc+"."+method (with or without `ok`), if / else,
+//    switch (with or without tag), ==, !=, !, &&, ||, return; IsTrustedPeer(<ctx>, pid) is the trust oracle and its
+//    second argument must be the pid parameter. Every other statement, call or operand is an error naming file:line.
+//    The eight results are written as today's table: per entry `true`, `false`, `trusted` (or `negb trusted`).
+// Several distinct functions reaching NewServer calls must give the same table.
+
+type polPkg struct {
+	fset  *token.FileSet
+	files []*ast.File
+}
+
+func (p *polPkg) at(n ast.Node) string { return p.fset.Position(n.Pos()).String() }
+
+func polLoad(repo string) (*polPkg, error) {
+	names, err := filepath.Glob(filepath.Join(repo, "*.go"))
+	if err != nil {
+		return nil, err
+	}
+	p := &polPkg{fset: token.NewFileSet()}
+	for _, fn := range names {
+		if strings.HasSuffix(fn, "_test.go") {
+			continue
+		}
+		f, err := parser.ParseFile(p.fset, fn, nil, 0)
+		if err != nil {
+			return nil, err
+		}
+		p.files = append(p.files, f)
+	}
+	return p, nil
+}
+
+func polParseSrc(src string) (*polPkg, error) {
+	p := &polPkg{fset: token.NewFileSet()}
+	f, err := parser.ParseFile(p.fset, "selftest.go", src, 0)
+	if err != nil {
+		return nil, err
+	}
+	p.files = []*ast.File{f}
+	return p, nil
+}
+
 func genAuthF(repo string) (string, error) {
-	fset, af, err := parseFile(filepath.Join(repo, "rpc_api.go"))
+	if err := polSelfTest(); err != nil {
+		return "", fmt.Errorf("self-test of the authorisation-function translator: %v", err)
+	}
+	p, err := polLoad(repo)
 	if err != nil {
 		return "", err
 	}
+	return polAuthTable(p)
+}
+
+// a function that may be handed to rpc.WithAuthorizeFunc
+type polFn struct {
+	what string
+	typ  *ast.FuncType
+	body *ast.BlockStmt
+	node ast.Node
+}
+
+func (p *polPkg) funcDecls(recv, name string) []*ast.FuncDecl {
+	var r []*ast.FuncDecl
+	for _, f := range p.files {
+		for _, d := range f.Decls {
+			fd, ok := d.(*ast.FuncDecl)
+			if !ok || fd.Name.Name != name {
+				continue
+			}
+			if recv == "" {
+				if fd.Recv == nil {
+					r = append(r, fd)
+				}
+				continue
+			}
+			if fd.Recv == nil || len(fd.Recv.List) != 1 {
+				continue
+			}
+			t := fd.Recv.List[0].Type
+			if st, ok := t.(*ast.StarExpr); ok {
+				t = st.X
+			}
+			if id, ok := t.(*ast.Ident); ok && id.Name == recv {
+				r = append(r, fd)
+			}
+		}
+	}
+	return r
+}
+
+const (
+	pvFn = iota + 1
+	pvOpt
+	pvSlice
+)
+
+type polOpt struct{ fn *polFn } // fn == nil: an option other than WithAuthorizeFunc
+
+type polVal struct {
+	kind  int
+	fn    *polFn
+	slice []polOpt
+	depth int // block depth of the declaration
+}
+
+type polState struct{ env map[string]polVal }
+
+func (s *polState) clone() *polState {
+	n := &polState{env: map[string]polVal{}}
+	for k, v := range s.env {
+		n.env[k] = v
+	}
+	return n
+}
+
+func (s *polState) key() string {
+	var ks []string
+	for k, v := range s.env {
+		x := fmt.Sprintf("%s@%d=%d:", k, v.depth, v.kind)
+		if v.fn != nil {
+			x += fmt.Sprint(v.fn.node.Pos())
+		}
+		for _, o := range v.slice {
+			if o.fn == nil {
+				x += "-,"
+			} else {
+				x += fmt.Sprint(o.fn.node.Pos()) + ","
+			}
+		}
+		ks = append(ks, x)
+	}
+	sort.Strings(ks)
+	return strings.Join(ks, ";")
+}
+
+type polFlow struct {
+	p        *polPkg
+	paramTyp map[string]string // parameter of newRPCServer -> named type (pointer stripped)
+	fns      []*polFn          // distinct functions found in WithAuthorizeFunc on some path to NewServer
+	servers  map[token.Pos]bool
+}
+
+func polAuthTable(p *polPkg) (string, error) {
 	var fn *ast.FuncDecl
-	for _, d := range af.Decls {
-		if fd, ok := d.(*ast.FuncDecl); ok && fd.Recv == nil && fd.Name.Name == "newRPCServer" {
-			fn = fd
-		}
+	n := 0
+	for _, fd := range p.funcDecls("", "newRPCServer") {
+		fn = fd
+		n++
 	}
-	if fn == nil {
-		return "", fmt.Errorf("newRPCServer not found in rpc_api.go")
+	if n != 1 || fn.Body == nil {
+		return "", fmt.Errorf("newRPCServer found %d times in the root package", n)
 	}
-	var lit *ast.FuncLit
-	nAssign := 0
-	ast.Inspect(fn.Body, func(n ast.Node) bool {
-		as, ok := n.(*ast.AssignStmt)
-		if !ok {
-			return true
+	fl := &polFlow{p: p, paramTyp: map[string]string{}, servers: map[token.Pos]bool{}}
+	for _, f := range fn.Type.Params.List {
+		t := f.Type
+		if st, ok := t.(*ast.StarExpr); ok {
+			t = st.X
 		}
-		for i, l := range as.Lhs {
-			if id, ok := l.(*ast.Ident); ok && id.Name == "authF" {
-				nAssign++
-				if len(as.Rhs) == len(as.Lhs) {
-					lit, _ = as.Rhs[i].(*ast.FuncLit)
-				}
+		if id, ok := t.(*ast.Ident); ok {
+			for _, nm := range f.Names {
+				fl.paramTyp[nm.Name] = id.Name
 			}
 		}
-		return true
-	})
-	if nAssign != 1 || lit == nil {
-		return "", fmt.Errorf("newRPCServer: authF is not assigned exactly once from a function literal")
 	}
-	// every rpc.NewServer call carries rpc.WithAuthorizeFunc(authF)
-	nServers, nWith := 0, 0
-	ast.Inspect(fn.Body, func(n ast.Node) bool {
-		ce, ok := n.(*ast.CallExpr)
-		if !ok {
-			return true
-		}
-		se, ok := ce.Fun.(*ast.SelectorExpr)
-		if !ok || se.Sel.Name != "NewServer" {
-			return true
-		}
-		nServers++
-		for _, a := range ce.Args {
-			if c2, ok := a.(*ast.CallExpr); ok {
-				if s2, ok := c2.Fun.(*ast.SelectorExpr); ok && s2.Sel.Name == "WithAuthorizeFunc" && len(c2.Args) == 1 {
-					if id, ok := c2.Args[0].(*ast.Ident); ok && id.Name == "authF" {
-						nWith++
-					}
-				}
-			}
-		}
-		return true
-	})
-	if nServers == 0 || nServers != nWith {
-		return "", fmt.Errorf("newRPCServer: %d rpc.NewServer calls but %d carry rpc.WithAuthorizeFunc(authF)", nServers, nWith)
-	}
-	// parameters
-	var params []string
-	for _, f := range lit.Type.Params.List {
-		for _, n := range f.Names {
-			params = append(params, n.Name)
-		}
-	}
-	if len(params) != 3 {
-		return "", fmt.Errorf("authF: expected 3 named parameters")
-	}
-	pid, svc, method := params[0], params[1], params[2]
-	st := lit.Body.List
-	if len(st) != 3 {
-		return "", fmt.Errorf("%s: authF body has %d statements, expected lookup; if !ok; switch", fset.Position(lit.Pos()), len(st))
-	}
-	// 1. t, ok := <...>.RPCPolicy[svc+"."+method]
-	as, ok := st[0].(*ast.AssignStmt)
-	if !ok || len(as.Lhs) != 2 || len(as.Rhs) != 1 {
-		return "", fmt.Errorf("authF: first statement is not a two-value map lookup")
-	}
-	tv, ok1 := as.Lhs[0].(*ast.Ident)
-	okv, ok2 := as.Lhs[1].(*ast.Ident)
-	ix, ok3 := as.Rhs[0].(*ast.IndexExpr)
-	if !ok1 || !ok2 || !ok3 {
-		return "", fmt.Errorf("authF: first statement is not a two-value map lookup")
-	}
-	if sel, ok := ix.X.(*ast.SelectorExpr); !ok || sel.Sel.Name != "RPCPolicy" {
-		return "", fmt.Errorf("authF: the map looked up is not <config>.RPCPolicy")
-	}
-	if !isSvcDotMethod(ix.Index, svc, method) {
-		return "", fmt.Errorf("authF: the lookup key is not %s+\".\"+%s", svc, method)
-	}
-	// 2. if !ok { return <bool> }
-	ifs, ok := st[1].(*ast.IfStmt)
-	if !ok || ifs.Init != nil || ifs.Else != nil || len(ifs.Body.List) != 1 {
-		return "", fmt.Errorf("authF: second statement is not `if !ok { return ... }`")
-	}
-	un, ok := ifs.Cond.(*ast.UnaryExpr)
-	if !ok || un.Op != token.NOT {
-		return "", fmt.Errorf("authF: second statement does not test !ok")
-	}
-	if id, ok := un.X.(*ast.Ident); !ok || id.Name != okv.Name {
-		return "", fmt.Errorf("authF: second statement does not test !ok")
-	}
-	missing, err := authRet(ifs.Body.List[0], pid)
-	if err != nil {
+	if _, err := fl.exec(fn.Body.List, []*polState{{env: map[string]polVal{}}}, 0); err != nil {
 		return "", err
 	}
-	// 3. switch t { ... }
-	sw, ok := st[2].(*ast.SwitchStmt)
-	if !ok || sw.Init != nil {
-		return "", fmt.Errorf("authF: third statement is not a switch")
+	if len(fl.servers) == 0 {
+		return "", fmt.Errorf("%s: newRPCServer: no rpc.NewServer call found", p.at(fn))
 	}
-	if id, ok := sw.Tag.(*ast.Ident); !ok || id.Name != tv.Name {
-		return "", fmt.Errorf("authF: the switch is not on the looked-up endpoint type")
-	}
-	res := map[string]string{}
-	def := ""
-	for _, c := range sw.Body.List {
-		cc := c.(*ast.CaseClause)
-		if len(cc.Body) != 1 {
-			return "", fmt.Errorf("%s: authF: a case body is not a single return", fset.Position(cc.Pos()))
-		}
-		r, err := authRet(cc.Body[0], pid)
+	table := ""
+	for i, f := range fl.fns {
+		t, err := polDecisionTable(p, f)
 		if err != nil {
 			return "", err
 		}
-		if cc.List == nil {
-			def = r
+		if i > 0 && t != table {
+			return "", fmt.Errorf("%s: newRPCServer installs different authorisation functions on different paths (%s and %s decide differently)",
+				p.at(f.node), fl.fns[0].what, f.what)
+		}
+		table = t
+	}
+	return table, nil
+}
+
+func polIsSel(e ast.Expr, name string) (*ast.CallExpr, bool) {
+	ce, ok := e.(*ast.CallExpr)
+	if !ok {
+		return nil, false
+	}
+	se, ok := ce.Fun.(*ast.SelectorExpr)
+	if !ok || se.Sel.Name != name {
+		return nil, false
+	}
+	return ce, true
+}
+
+// touches: the first node under n that the flow walk would have to understand: a tracked variable, a NewServer /
+// WithAuthorizeFunc call.
+func (fl *polFlow) touches(n ast.Node, s *polState) ast.Node { return fl.touches2(n, s, true) }
+
+// touchesCalls: the same without the variables (a followed variable may be returned, for instance)
+func (fl *polFlow) touchesCalls(n ast.Node, s *polState) ast.Node { return fl.touches2(n, s, false) }
+
+func (fl *polFlow) touches2(n ast.Node, s *polState, idents bool) ast.Node {
+	if n == nil {
+		return nil
+	}
+	var r ast.Node
+	ast.Inspect(n, func(x ast.Node) bool {
+		if r != nil {
+			return false
+		}
+		switch y := x.(type) {
+		case *ast.Ident:
+			if _, ok := s.env[y.Name]; ok && idents {
+				r = y
+			}
+		case *ast.SelectorExpr:
+			if y.Sel.Name == "NewServer" || y.Sel.Name == "WithAuthorizeFunc" {
+				r = y
+			}
+		}
+		return r == nil
+	})
+	return r
+}
+
+func (fl *polFlow) notFollowed(n ast.Node, ctx string) error {
+	return fmt.Errorf("%s: newRPCServer: %s: the translator does not follow this use of the server options / authorisation function", fl.p.at(n), ctx)
+}
+
+func (fl *polFlow) exec(stmts []ast.Stmt, states []*polState, depth int) ([]*polState, error) {
+	for _, st := range stmts {
+		var next []*polState
+		seen := map[string]bool{}
+		for _, s := range states {
+			out, err := fl.step(st, s, depth)
+			if err != nil {
+				return nil, err
+			}
+			for _, o := range out {
+				if k := o.key(); !seen[k] {
+					seen[k] = true
+					next = append(next, o)
+				}
+			}
+		}
+		if len(next) > 256 {
+			return nil, fmt.Errorf("%s: newRPCServer: too many paths to follow", fl.p.at(st))
+		}
+		states = next
+	}
+	// leaving the block: its own declarations go out of scope
+	if depth > 0 {
+		for _, s := range states {
+			for k, v := range s.env {
+				if v.depth >= depth {
+					delete(s.env, k)
+				}
+			}
+		}
+	}
+	return states, nil
+}
+
+func (fl *polFlow) step(st ast.Stmt, s *polState, depth int) ([]*polState, error) {
+	switch x := st.(type) {
+	case *ast.EmptyStmt:
+		return []*polState{s}, nil
+	case *ast.BlockStmt:
+		return fl.exec(x.List, []*polState{s.clone()}, depth+1)
+	case *ast.ReturnStmt:
+		for _, r := range x.Results {
+			if ce, ok := polIsSel(r, "NewServer"); ok {
+				if err := fl.server(ce, s); err != nil {
+					return nil, err
+				}
+			} else if t := fl.touchesCalls(r, s); t != nil {
+				return nil, fl.notFollowed(t, "return")
+			}
+		}
+		return nil, nil
+	case *ast.ExprStmt:
+		if ce, ok := polIsSel(x.X, "NewServer"); ok {
+			return []*polState{s}, fl.server(ce, s)
+		}
+		if t := fl.touches(x, s); t != nil {
+			return nil, fl.notFollowed(t, "statement")
+		}
+		return []*polState{s}, nil
+	case *ast.DeclStmt:
+		gd, ok := x.Decl.(*ast.GenDecl)
+		if !ok || gd.Tok != token.VAR {
+			if t := fl.touches(x, s); t != nil {
+				return nil, fl.notFollowed(t, "declaration")
+			}
+			return []*polState{s}, nil
+		}
+		n := s.clone()
+		for _, sp := range gd.Specs {
+			vs := sp.(*ast.ValueSpec)
+			if len(vs.Values) == 0 {
+				for _, nm := range vs.Names {
+					if polIsOptSlice(vs.Type) {
+						if err := fl.bind(n, nm, polVal{kind: pvSlice}, true, depth); err != nil {
+							return nil, err
+						}
+					} else if _, tracked := n.env[nm.Name]; tracked {
+						return nil, fl.notFollowed(nm, "declaration hides a followed variable")
+					}
+				}
+				continue
+			}
+			if len(vs.Values) != len(vs.Names) {
+				if t := fl.touches(vs, s); t != nil {
+					return nil, fl.notFollowed(t, "declaration")
+				}
+				continue
+			}
+			lhs := make([]ast.Expr, len(vs.Names))
+			for i, nm := range vs.Names {
+				lhs[i] = nm
+			}
+			if err := fl.assign(lhs, vs.Values, true, s, n, depth); err != nil {
+				return nil, err
+			}
+		}
+		return []*polState{n}, nil
+	case *ast.AssignStmt:
+		if (x.Tok != token.ASSIGN && x.Tok != token.DEFINE) || len(x.Lhs) != len(x.Rhs) {
+			if t := fl.touches(x, s); t != nil {
+				return nil, fl.notFollowed(t, "assignment")
+			}
+			return []*polState{s}, nil
+		}
+		n := s.clone()
+		if err := fl.assign(x.Lhs, x.Rhs, x.Tok == token.DEFINE, s, n, depth); err != nil {
+			return nil, err
+		}
+		return []*polState{n}, nil
+	case *ast.IfStmt:
+		cur := s.clone()
+		if x.Init != nil {
+			out, err := fl.step(x.Init, cur, depth+1)
+			if err != nil {
+				return nil, err
+			}
+			if len(out) != 1 {
+				return nil, fl.notFollowed(x.Init, "if initialiser")
+			}
+			cur = out[0]
+		}
+		if t := fl.touches(x.Cond, cur); t != nil {
+			return nil, fl.notFollowed(t, "if condition")
+		}
+		res, err := fl.exec(x.Body.List, []*polState{cur.clone()}, depth+2)
+		if err != nil {
+			return nil, err
+		}
+		switch e := x.Else.(type) {
+		case nil:
+			res = append(res, cur.clone())
+		case *ast.BlockStmt:
+			r2, err := fl.exec(e.List, []*polState{cur.clone()}, depth+2)
+			if err != nil {
+				return nil, err
+			}
+			res = append(res, r2...)
+		default: // else if
+			r2, err := fl.exec([]ast.Stmt{e}, []*polState{cur.clone()}, depth+2)
+			if err != nil {
+				return nil, err
+			}
+			res = append(res, r2...)
+		}
+		// the initialiser's declarations go out of scope
+		for _, r := range res {
+			for k, v := range r.env {
+				if v.depth >= depth+1 {
+					delete(r.env, k)
+				}
+			}
+		}
+		return res, nil
+	default:
+		// loops, switches, go, defer, ...: fine as long as they stay away from what is followed
+		if t := fl.touches(st, s); t != nil {
+			return nil, fl.notFollowed(t, fmt.Sprintf("%T", st))
+		}
+		return []*polState{s}, nil
+	}
+}
+
+func polIsOptSlice(t ast.Expr) bool {
+	at, ok := t.(*ast.ArrayType)
+	if !ok || at.Len != nil {
+		return false
+	}
+	switch e := at.Elt.(type) {
+	case *ast.SelectorExpr:
+		return e.Sel.Name == "ServerOption"
+	case *ast.Ident:
+		return e.Name == "ServerOption"
+	}
+	return false
+}
+
+func (fl *polFlow) bind(n *polState, id *ast.Ident, v polVal, define bool, depth int) error {
+	if id.Name == "_" {
+		return nil
+	}
+	old, had := n.env[id.Name]
+	switch {
+	case had && define && old.depth < depth:
+		return fl.notFollowed(id, "a followed variable is declared again in an inner block")
+	case had:
+		v.depth = old.depth
+	default:
+		// first binding (a plain assignment to a variable the walk did not follow so far, e.g. `var f func(...) bool`
+		// declared earlier, is treated as declared here: conservative for the scope rule above)
+		v.depth = depth
+	}
+	n.env[id.Name] = v
+	return nil
+}
+
+// assign: rhs evaluated in the state before the statement (old), bindings written to n
+func (fl *polFlow) assign(lhs, rhs []ast.Expr, define bool, old, n *polState, depth int) error {
+	for i, r := range rhs {
+		id, isId := lhs[i].(*ast.Ident)
+		var v polVal
+		switch e := r.(type) {
+		case *ast.FuncLit:
+			if t := fl.touches(e.Body, old); t != nil {
+				return fl.notFollowed(t, "function literal")
+			}
+			v = polVal{kind: pvFn, fn: &polFn{what: "the function literal at " + fl.p.at(e), typ: e.Type, body: e.Body, node: e}}
+		case *ast.CompositeLit:
+			if !polIsOptSlice(e.Type) {
+				if t := fl.touches(e, old); t != nil {
+					return fl.notFollowed(t, "composite literal")
+				}
+			} else {
+				v = polVal{kind: pvSlice}
+				for _, el := range e.Elts {
+					o, err := fl.option(el, old)
+					if err != nil {
+						return err
+					}
+					v.slice = append(v.slice, o...)
+				}
+			}
+		case *ast.Ident:
+			if tv, ok := old.env[e.Name]; ok {
+				if tv.kind != pvFn {
+					return fl.notFollowed(e, "copy of a followed variable")
+				}
+				v = polVal{kind: pvFn, fn: tv.fn}
+			}
+		case *ast.CallExpr:
+			if ce, ok := polIsSel(r, "NewServer"); ok {
+				if err := fl.server(ce, old); err != nil {
+					return err
+				}
+			} else if _, ok := polIsSel(r, "WithAuthorizeFunc"); ok {
+				o, err := fl.option(r, old)
+				if err != nil {
+					return err
+				}
+				v = polVal{kind: pvOpt, fn: o[0].fn}
+			} else if fid, ok := e.Fun.(*ast.Ident); ok && fid.Name == "append" && len(e.Args) >= 1 {
+				base, ok := e.Args[0].(*ast.Ident)
+				tv, tracked := polVal{}, false
+				if ok {
+					tv, tracked = old.env[base.Name]
+				}
+				if !tracked || tv.kind != pvSlice || e.Ellipsis.IsValid() {
+					if t := fl.touches(e, old); t != nil {
+						return fl.notFollowed(t, "append")
+					}
+				} else {
+					v = polVal{kind: pvSlice, slice: append([]polOpt{}, tv.slice...)}
+					for _, a := range e.Args[1:] {
+						o, err := fl.option(a, old)
+						if err != nil {
+							return err
+						}
+						v.slice = append(v.slice, o...)
+					}
+				}
+			} else if t := fl.touches(r, old); t != nil {
+				return fl.notFollowed(t, "call")
+			}
+		default:
+			if t := fl.touches(r, old); t != nil {
+				return fl.notFollowed(t, "assignment")
+			}
+		}
+		if v.kind == 0 {
+			// nothing followed on the right: the left side must not be (or contain) a followed variable
+			if t := fl.touches(lhs[i], old); t != nil {
+				return fl.notFollowed(t, "a followed variable is overwritten with something else")
+			}
 			continue
 		}
-		for _, e := range cc.List {
-			id, ok := e.(*ast.Ident)
-			if !ok || eptNames[id.Name] == "" {
-				return "", fmt.Errorf("%s: authF: case label is not an RPC endpoint type", fset.Position(e.Pos()))
+		if !isId {
+			return fl.notFollowed(lhs[i], "followed value stored somewhere else than a local variable")
+		}
+		if err := fl.bind(n, id, v, define, depth); err != nil {
+			return err
+		}
+	}
+	return nil
+}
+
+// option: one argument of NewServer / element appended to the options
+func (fl *polFlow) option(e ast.Expr, s *polState) ([]polOpt, error) {
+	if ce, ok := polIsSel(e, "WithAuthorizeFunc"); ok {
+		if len(ce.Args) != 1 || ce.Ellipsis.IsValid() {
+			return nil, fl.notFollowed(ce, "WithAuthorizeFunc")
+		}
+		f, err := fl.resolve(ce.Args[0], s)
+		if err != nil {
+			return nil, err
+		}
+		return []polOpt{{fn: f}}, nil
+	}
+	if id, ok := e.(*ast.Ident); ok {
+		if tv, ok := s.env[id.Name]; ok {
+			if tv.kind != pvOpt {
+				return nil, fl.notFollowed(e, "server option")
 			}
-			if _, dup := res[eptNames[id.Name]]; !dup {
-				res[eptNames[id.Name]] = r
+			return []polOpt{{fn: tv.fn}}, nil
+		}
+	}
+	// any other option must be a plain <pkg>.WithXxx(...) call that involves nothing followed
+	if ce, ok := e.(*ast.CallExpr); ok {
+		if se, ok := ce.Fun.(*ast.SelectorExpr); ok && strings.HasPrefix(se.Sel.Name, "With") {
+			if _, ok := se.X.(*ast.Ident); ok && fl.touches(e, s) == nil {
+				return []polOpt{{}}, nil
 			}
+		}
+	}
+	return nil, fmt.Errorf("%s: newRPCServer: server option is neither rpc.WithAuthorizeFunc(f) nor another <pkg>.WithXxx(...) call: it could carry an authorisation function the translator does not see", fl.p.at(e))
+}
+
+func (fl *polFlow) server(ce *ast.CallExpr, s *polState) error {
+	fl.servers[ce.Pos()] = true
+	if len(ce.Args) < 2 {
+		return fl.notFollowed(ce, "NewServer")
+	}
+	for _, a := range ce.Args[:2] {
+		if t := fl.touches(a, s); t != nil {
+			return fl.notFollowed(t, "NewServer")
+		}
+	}
+	var opts []polOpt
+	for i, a := range ce.Args[2:] {
+		if ce.Ellipsis.IsValid() && i == len(ce.Args)-3 {
+			id, ok := a.(*ast.Ident)
+			tv, tracked := polVal{}, false
+			if ok {
+				tv, tracked = s.env[id.Name]
+			}
+			if !tracked || tv.kind != pvSlice {
+				return fmt.Errorf("%s: newRPCServer: rpc.NewServer is given `%s...`, which is not a local options slice the translator followed from its declaration", fl.p.at(a), polText(a))
+			}
+			opts = append(opts, tv.slice...)
+			continue
+		}
+		o, err := fl.option(a, s)
+		if err != nil {
+			return err
+		}
+		opts = append(opts, o...)
+	}
+	var auth []*polFn
+	for _, o := range opts {
+		if o.fn != nil {
+			auth = append(auth, o.fn)
+		}
+	}
+	if len(auth) != 1 {
+		return fmt.Errorf("%s: newRPCServer: this rpc.NewServer call is reachable on a path where its options hold %d rpc.WithAuthorizeFunc(...) (exactly one is required on every path: without it every remote call is served)", fl.p.at(ce), len(auth))
+	}
+	for _, f := range fl.fns {
+		if f.node == auth[0].node {
+			return nil
+		}
+	}
+	fl.fns = append(fl.fns, auth[0])
+	return nil
+}
+
+func polText(e ast.Expr) string {
+	switch x := e.(type) {
+	case *ast.Ident:
+		return x.Name
+	case *ast.SelectorExpr:
+		return polText(x.X) + "." + x.Sel.Name
+	}
+	return fmt.Sprintf("%T", e)
+}
+
+// resolve the argument of WithAuthorizeFunc to a declaration with a body
+func (fl *polFlow) resolve(e ast.Expr, s *polState) (*polFn, error) {
+	switch x := e.(type) {
+	case *ast.ParenExpr:
+		return fl.resolve(x.X, s)
+	case *ast.FuncLit:
+		return &polFn{what: "the function literal at " + fl.p.at(x), typ: x.Type, body: x.Body, node: x}, nil
+	case *ast.Ident:
+		if tv, ok := s.env[x.Name]; ok {
+			if tv.kind != pvFn {
+				return nil, fmt.Errorf("%s: newRPCServer: WithAuthorizeFunc(%s): %s does not hold a function here", fl.p.at(x), x.Name, x.Name)
+			}
+			return tv.fn, nil
+		}
+		ds := fl.p.funcDecls("", x.Name)
+		if len(ds) != 1 || ds[0].Body == nil {
+			return nil, fmt.Errorf("%s: newRPCServer: WithAuthorizeFunc(%s): %s is neither a local variable assigned from a function literal on this path nor a package-level function (%d declarations)", fl.p.at(x), x.Name, x.Name, len(ds))
+		}
+		return &polFn{what: "func " + x.Name, typ: ds[0].Type, body: ds[0].Body, node: ds[0]}, nil
+	case *ast.SelectorExpr:
+		id, ok := x.X.(*ast.Ident)
+		if !ok {
+			break
+		}
+		if _, tracked := s.env[id.Name]; tracked {
+			break
+		}
+		typ := fl.paramTyp[id.Name]
+		if typ == "" {
+			return nil, fmt.Errorf("%s: newRPCServer: WithAuthorizeFunc(%s): %s is not a parameter of newRPCServer of a named type of this package", fl.p.at(x), polText(x), id.Name)
+		}
+		ds := fl.p.funcDecls(typ, x.Sel.Name)
+		if len(ds) != 1 || ds[0].Body == nil {
+			return nil, fmt.Errorf("%s: newRPCServer: WithAuthorizeFunc(%s): %d declarations of method %s.%s in the root package (a field holding a function is not followed)", fl.p.at(x), polText(x), len(ds), typ, x.Sel.Name)
+		}
+		return &polFn{what: "method " + typ + "." + x.Sel.Name, typ: ds[0].Type, body: ds[0].Body, node: ds[0]}, nil
+	}
+	return nil, fmt.Errorf("%s: newRPCServer: the argument of WithAuthorizeFunc is not a function literal, a local variable holding one, a method value or a package-level function", fl.p.at(e))
+}
+
+// ---- evaluation of the decision function -------------------------------------------------------------------
+
+const (
+	evBool = iota + 1
+	evEpt
+	evMap
+	evKey
+)
+
+type polV struct {
+	k int
+	b bool
+	e string // Closed / Trusted / Open
+}
+
+type polEv struct {
+	p                *polPkg
+	pid, svc, method string
+	entry            string // "" = no entry in the map
+	trusted          bool
+	zero             string // the endpoint type whose value is 0 ("" = not determined)
+	scopes           []map[string]polV
+}
+
+func (ev *polEv) errAt(n ast.Node, f string, a ...interface{}) error {
+	return fmt.Errorf("%s: authorisation function: %s", ev.p.at(n), fmt.Sprintf(f, a...))
+}
+
+// the constant of RPCEndpointType with value 0: `const ( A RPCEndpointType = iota; B; C )`
+func (p *polPkg) zeroEpt() string {
+	for _, f := range p.files {
+		for _, d := range f.Decls {
+			gd, ok := d.(*ast.GenDecl)
+			if !ok || gd.Tok != token.CONST || len(gd.Specs) == 0 {
+				continue
+			}
+			vs := gd.Specs[0].(*ast.ValueSpec)
+			t, ok := vs.Type.(*ast.Ident)
+			if !ok || t.Name != "RPCEndpointType" || len(vs.Names) != 1 || len(vs.Values) != 1 {
+				continue
+			}
+			if v, ok := vs.Values[0].(*ast.Ident); ok && v.Name == "iota" {
+				return eptNames[vs.Names[0].Name]
+			}
+		}
+	}
+	return ""
+}
+
+func polDecisionTable(p *polPkg, f *polFn) (string, error) {
+	var params []string
+	for _, fld := range f.typ.Params.List {
+		for _, n := range fld.Names {
+			params = append(params, n.Name)
+		}
+	}
+	if len(params) != 3 || f.typ.Results == nil || len(f.typ.Results.List) != 1 {
+		return "", fmt.Errorf("%s: %s: expected three named parameters (caller, service, method) and one result", p.at(f.node), f.what)
+	}
+	if id, ok := f.typ.Results.List[0].Type.(*ast.Ident); !ok || id.Name != "bool" || len(f.typ.Results.List[0].Names) != 0 {
+		return "", fmt.Errorf("%s: %s: the result is not an unnamed bool", p.at(f.node), f.what)
+	}
+	// the parameters are never written
+	var werr error
+	ast.Inspect(f.body, func(n ast.Node) bool {
+		var lhs []ast.Expr
+		switch x := n.(type) {
+		case *ast.AssignStmt:
+			lhs = x.Lhs
+		case *ast.IncDecStmt:
+			lhs = []ast.Expr{x.X}
+		case *ast.UnaryExpr:
+			if x.Op == token.AND {
+				lhs = []ast.Expr{x.X}
+			}
+		case *ast.ValueSpec:
+			for _, nm := range x.Names {
+				lhs = append(lhs, nm)
+			}
+		case *ast.RangeStmt:
+			lhs = []ast.Expr{x.Key, x.Value}
+		}
+		for _, l := range lhs {
+			if id, ok := l.(*ast.Ident); ok && id.Name != "_" && (id.Name == params[0] || id.Name == params[1] || id.Name == params[2]) {
+				werr = fmt.Errorf("%s: authorisation function: parameter %s is written or declared again", p.at(id), id.Name)
+			}
+		}
+		return true
+	})
+	if werr != nil {
+		return "", werr
+	}
+	zero := p.zeroEpt()
+	rows := map[string]string{}
+	for _, entry := range []string{"", "Closed", "Trusted", "Open"} {
+		var r [2]bool
+		for i, tr := range []bool{false, true} {
+			ev := &polEv{p: p, pid: params[0], svc: params[1], method: params[2], entry: entry, trusted: tr, zero: zero}
+			v, done, err := ev.block(f.body.List)
+			if err != nil {
+				return "", err
+			}
+			if !done {
+				return "", ev.errAt(f.body, "the body can end without a return")
+			}
+			r[i] = v.b
+		}
+		switch {
+		case r[0] == r[1]:
+			rows[entry] = strconv.FormatBool(r[0])
+		case r[1]:
+			rows[entry] = "trusted"
+		default:
+			rows[entry] = "negb trusted"
 		}
 	}
 	var b strings.Builder
 	b.WriteString("(* authF of newRPCServer: entry found in the policy map (or not) and consensus.IsTrustedPeer(caller) -> allow *)\n")
 	b.WriteString("Definition authf_gen (e : option ept) (trusted : bool) : bool :=\n  match e with\n")
-	b.WriteString("  | None => " + missing + "\n")
+	b.WriteString("  | None => " + rows[""] + "\n")
 	for _, t := range []string{"Closed", "Trusted", "Open"} {
-		r, ok := res[t]
-		if !ok {
-			r = def
-		}
-		if r == "" {
-			return "", fmt.Errorf("authF: no case and no default covers %s", t)
-		}
-		b.WriteString("  | Some " + t + " => " + r + "\n")
+		b.WriteString("  | Some " + t + " => " + rows[t] + "\n")
 	}
 	b.WriteString("  end.\n")
 	return b.String(), nil
+}
+
+func (ev *polEv) lookup(name string) (polV, bool) {
+	for i := len(ev.scopes) - 1; i >= 0; i-- {
+		if v, ok := ev.scopes[i][name]; ok {
+			return v, true
+		}
+	}
+	return polV{}, false
+}
+
+func (ev *polEv) set(id *ast.Ident, v polV, define bool) error {
+	if id.Name == "_" {
+		return nil
+	}
+	if define {
+		ev.scopes[len(ev.scopes)-1][id.Name] = v
+		return nil
+	}
+	for i := len(ev.scopes) - 1; i >= 0; i-- {
+		if _, ok := ev.scopes[i][id.Name]; ok {
+			ev.scopes[i][id.Name] = v
+			return nil
+		}
+	}
+	return ev.errAt(id, "assignment to %s, which is not a local variable of the function", id.Name)
+}
+
+func (ev *polEv) block(stmts []ast.Stmt) (polV, bool, error) {
+	ev.scopes = append(ev.scopes, map[string]polV{})
+	defer func() { ev.scopes = ev.scopes[:len(ev.scopes)-1] }()
+	for _, st := range stmts {
+		v, done, err := ev.stmt(st)
+		if err != nil || done {
+			return v, done, err
+		}
+	}
+	return polV{}, false, nil
+}
+
+func (ev *polEv) stmt(st ast.Stmt) (polV, bool, error) {
+	none := polV{}
+	switch x := st.(type) {
+	case *ast.EmptyStmt:
+		return none, false, nil
+	case *ast.BlockStmt:
+		return ev.block(x.List)
+	case *ast.ReturnStmt:
+		if len(x.Results) != 1 {
+			return none, false, ev.errAt(x, "return without exactly one value")
+		}
+		v, err := ev.eval(x.Results[0])
+		if err != nil {
+			return none, false, err
+		}
+		if v.k != evBool {
+			return none, false, ev.errAt(x, "the returned value is not a boolean the translator can evaluate")
+		}
+		return v, true, nil
+	case *ast.AssignStmt:
+		if x.Tok != token.DEFINE && x.Tok != token.ASSIGN {
+			return none, false, ev.errAt(x, "assignment operator %s is not evaluated", x.Tok)
+		}
+		ids := make([]*ast.Ident, len(x.Lhs))
+		for i, l := range x.Lhs {
+			id, ok := l.(*ast.Ident)
+			if !ok {
+				return none, false, ev.errAt(l, "assignment to something else than a local variable")
+			}
+			ids[i] = id
+		}
+		if len(x.Lhs) == 2 && len(x.Rhs) == 1 {
+			ix, ok := x.Rhs[0].(*ast.IndexExpr)
+			if !ok {
+				return none, false, ev.errAt(x, "two-value assignment that is not a map lookup")
+			}
+			v, err := ev.index(ix, true)
+			if err != nil {
+				return none, false, err
+			}
+			if err := ev.set(ids[0], v, x.Tok == token.DEFINE); err != nil {
+				return none, false, err
+			}
+			return none, false, ev.set(ids[1], polV{k: evBool, b: ev.entry != ""}, x.Tok == token.DEFINE)
+		}
+		if len(x.Lhs) != len(x.Rhs) {
+			return none, false, ev.errAt(x, "assignment shape not evaluated")
+		}
+		vals := make([]polV, len(x.Rhs))
+		for i, r := range x.Rhs {
+			v, err := ev.eval(r)
+			if err != nil {
+				return none, false, err
+			}
+			vals[i] = v
+		}
+		for i, id := range ids {
+			if err := ev.set(id, vals[i], x.Tok == token.DEFINE); err != nil {
+				return none, false, err
+			}
+		}
+		return none, false, nil
+	case *ast.IfStmt:
+		ev.scopes = append(ev.scopes, map[string]polV{})
+		defer func() { ev.scopes = ev.scopes[:len(ev.scopes)-1] }()
+		if x.Init != nil {
+			if _, done, err := ev.stmt(x.Init); err != nil || done {
+				return none, false, firstErr(err, ev.errAt(x.Init, "if initialiser not evaluated"))
+			}
+		}
+		c, err := ev.eval(x.Cond)
+		if err != nil {
+			return none, false, err
+		}
+		if c.k != evBool {
+			return none, false, ev.errAt(x.Cond, "condition is not a boolean the translator can evaluate")
+		}
+		if c.b {
+			return ev.block(x.Body.List)
+		}
+		if x.Else != nil {
+			return ev.stmt(x.Else)
+		}
+		return none, false, nil
+	case *ast.SwitchStmt:
+		ev.scopes = append(ev.scopes, map[string]polV{})
+		defer func() { ev.scopes = ev.scopes[:len(ev.scopes)-1] }()
+		if x.Init != nil {
+			if _, done, err := ev.stmt(x.Init); err != nil || done {
+				return none, false, firstErr(err, ev.errAt(x.Init, "switch initialiser not evaluated"))
+			}
+		}
+		tag := polV{k: evBool, b: true}
+		if x.Tag != nil {
+			t, err := ev.eval(x.Tag)
+			if err != nil {
+				return none, false, err
+			}
+			tag = t
+		}
+		var chosen, def *ast.CaseClause
+	clauses:
+		for _, c := range x.Body.List {
+			cc := c.(*ast.CaseClause)
+			if cc.List == nil {
+				def = cc
+				continue
+			}
+			for _, e := range cc.List {
+				v, err := ev.eval(e)
+				if err != nil {
+					return none, false, err
+				}
+				eq, err := ev.equal(e, tag, v)
+				if err != nil {
+					return none, false, err
+				}
+				if eq {
+					chosen = cc
+					break clauses
+				}
+			}
+		}
+		if chosen == nil {
+			chosen = def
+		}
+		if chosen == nil {
+			return none, false, nil
+		}
+		return ev.block(chosen.Body) // break / fallthrough inside are refused by stmt
+	case *ast.ExprStmt:
+		return none, false, ev.errAt(x, "statement `%s(...)` is not evaluated (only lookups in the policy map, if, switch and return are)", polCallName(x.X))
+	}
+	return none, false, ev.errAt(st, "statement of kind %T is not evaluated (only lookups in the policy map, if, switch and return are)", st)
+}
+
+func firstErr(a, b error) error {
+	if a != nil {
+		return a
+	}
+	return b
+}
+
+func polCallName(e ast.Expr) string {
+	if ce, ok := e.(*ast.CallExpr); ok {
+		return polText(ce.Fun)
+	}
+	return polText(e)
+}
+
+func (ev *polEv) equal(at ast.Node, a, b polV) (bool, error) {
+	if a.k != b.k || (a.k != evBool && a.k != evEpt) {
+		return false, ev.errAt(at, "comparison of operands the translator cannot evaluate")
+	}
+	if a.k == evBool {
+		return a.b == b.b, nil
+	}
+	return a.e == b.e, nil
+}
+
+// index: <policy map>[svc+"."+method]
+func (ev *polEv) index(ix *ast.IndexExpr, commaOk bool) (polV, error) {
+	m, err := ev.eval(ix.X)
+	if err != nil {
+		return polV{}, err
+	}
+	if m.k != evMap {
+		return polV{}, ev.errAt(ix.X, "the map looked up is not <config>.RPCPolicy")
+	}
+	k, err := ev.eval(ix.Index)
+	if err != nil {
+		return polV{}, err
+	}
+	if k.k != evKey {
+		return polV{}, ev.errAt(ix.Index, "the lookup key is not %s+\".\"+%s", ev.svc, ev.method)
+	}
+	if ev.entry != "" {
+		return polV{k: evEpt, e: ev.entry}, nil
+	}
+	if ev.zero == "" {
+		return polV{}, ev.errAt(ix, "the value of a missing entry (the zero RPCEndpointType) could not be determined from the const block")
+	}
+	return polV{k: evEpt, e: ev.zero}, nil
+}
+
+func (ev *polEv) eval(e ast.Expr) (polV, error) {
+	switch x := e.(type) {
+	case *ast.ParenExpr:
+		return ev.eval(x.X)
+	case *ast.Ident:
+		if v, ok := ev.lookup(x.Name); ok {
+			return v, nil
+		}
+		switch x.Name {
+		case "true", "false":
+			return polV{k: evBool, b: x.Name == "true"}, nil
+		}
+		if t := eptNames[x.Name]; t != "" {
+			return polV{k: evEpt, e: t}, nil
+		}
+		return polV{}, ev.errAt(x, "identifier %s is not a value the translator can evaluate", x.Name)
+	case *ast.UnaryExpr:
+		if x.Op != token.NOT {
+			break
+		}
+		v, err := ev.eval(x.X)
+		if err != nil {
+			return polV{}, err
+		}
+		if v.k != evBool {
+			return polV{}, ev.errAt(x, "! applied to something that is not a boolean")
+		}
+		return polV{k: evBool, b: !v.b}, nil
+	case *ast.BinaryExpr:
+		switch x.Op {
+		case token.LAND, token.LOR:
+			l, err := ev.eval(x.X)
+			if err != nil {
+				return polV{}, err
+			}
+			if l.k != evBool {
+				return polV{}, ev.errAt(x.X, "operand of %s is not a boolean", x.Op)
+			}
+			if l.b == (x.Op == token.LOR) { // short circuit, as Go does
+				return l, nil
+			}
+			r, err := ev.eval(x.Y)
+			if err != nil {
+				return polV{}, err
+			}
+			if r.k != evBool {
+				return polV{}, ev.errAt(x.Y, "operand of %s is not a boolean", x.Op)
+			}
+			return r, nil
+		case token.EQL, token.NEQ:
+			l, err := ev.eval(x.X)
+			if err != nil {
+				return polV{}, err
+			}
+			r, err := ev.eval(x.Y)
+			if err != nil {
+				return polV{}, err
+			}
+			eq, err := ev.equal(x, l, r)
+			if err != nil {
+				return polV{}, err
+			}
+			return polV{k: evBool, b: eq == (x.Op == token.EQL)}, nil
+		case token.ADD:
+			if isSvcDotMethod(x, ev.svc, ev.method) {
+				return polV{k: evKey}, nil
+			}
+			return polV{}, ev.errAt(x, "string expression is not %s+\".\"+%s", ev.svc, ev.method)
+		}
+	case *ast.SelectorExpr:
+		if x.Sel.Name == "RPCPolicy" {
+			return polV{k: evMap}, nil
+		}
+		return polV{}, ev.errAt(x, "%s is not a value the translator can evaluate", polText(x))
+	case *ast.IndexExpr:
+		return ev.index(x, false)
+	case *ast.CallExpr:
+		se, ok := x.Fun.(*ast.SelectorExpr)
+		if !ok || se.Sel.Name != "IsTrustedPeer" {
+			return polV{}, ev.errAt(x, "call of %s is not evaluated (only IsTrustedPeer(ctx, %s) is)", polText(x.Fun), ev.pid)
+		}
+		if len(x.Args) != 2 || x.Ellipsis.IsValid() {
+			return polV{}, ev.errAt(x, "IsTrustedPeer is not called with (ctx, %s)", ev.pid)
+		}
+		if id, ok := x.Args[1].(*ast.Ident); !ok || id.Name != ev.pid {
+			return polV{}, ev.errAt(x.Args[1], "IsTrustedPeer is asked about something else than the caller (%s)", ev.pid)
+		} else if _, shadowed := ev.lookup(id.Name); shadowed {
+			return polV{}, ev.errAt(x.Args[1], "IsTrustedPeer is asked about a local variable hiding the caller parameter")
+		}
+		return polV{k: evBool, b: ev.trusted}, nil
+	}
+	return polV{}, ev.errAt(e, "expression of kind %T is not evaluated", e)
 }
 
 func isSvcDotMethod(e ast.Expr, svc, method string) bool {
@@ -314,24 +1248,4 @@ func isSvcDotMethod(e ast.Expr, svc, method string) bool {
 	s, ok1 := b2.X.(*ast.Ident)
 	dot, ok2 := b2.Y.(*ast.BasicLit)
 	return ok1 && ok2 && s.Name == svc && dot.Value == "\".\""
-}
-
-func authRet(s ast.Stmt, pid string) (string, error) {
-	rs, ok := s.(*ast.ReturnStmt)
-	if !ok || len(rs.Results) != 1 {
-		return "", fmt.Errorf("authF: statement is not a single-value return")
-	}
-	switch e := rs.Results[0].(type) {
-	case *ast.Ident:
-		if e.Name == "true" || e.Name == "false" {
-			return e.Name, nil
-		}
-	case *ast.CallExpr:
-		if se, ok := e.Fun.(*ast.SelectorExpr); ok && se.Sel.Name == "IsTrustedPeer" && len(e.Args) == 2 {
-			if id, ok := e.Args[1].(*ast.Ident); ok && id.Name == pid {
-				return "trusted", nil
-			}
-		}
-	}
-	return "", fmt.Errorf("authF: a return value is neither true, false nor IsTrustedPeer(ctx, %s)", pid)
 }
